@@ -25,6 +25,12 @@ type Goroutine struct {
 	blockedOn string
 }
 
+type opHook struct {
+	at    int
+	fn    Value
+	fired bool
+}
+
 type waitOp struct {
 	g      *Goroutine
 	ch     *Chan
@@ -124,16 +130,32 @@ func (r *Run) runnable(g *Goroutine) bool {
 
 func (r *Run) otherRunnable(self *Goroutine) []*Goroutine {
 	var out []*Goroutine
-	// round-robin order starting after self
 	n := len(r.gs)
-	start := 0
-	if self != nil {
-		start = self.id + 1
-	}
-	for i := 0; i < n; i++ {
-		g := r.gs[(start+i)%n]
-		if g != self && r.runnable(g) {
-			out = append(out, g)
+	// the order defines the default (undelayed) choice; instance parameter "policy":
+	// 0 round-robin after the current goroutine, 1 youngest goroutine first, 2 oldest first
+	switch r.params["policy"] {
+	case 1:
+		for i := n - 1; i >= 0; i-- {
+			if g := r.gs[i]; g != self && r.runnable(g) {
+				out = append(out, g)
+			}
+		}
+	case 2:
+		for i := 0; i < n; i++ {
+			if g := r.gs[i]; g != self && r.runnable(g) {
+				out = append(out, g)
+			}
+		}
+	default:
+		start := 0
+		if self != nil {
+			start = self.id + 1
+		}
+		for i := 0; i < n; i++ {
+			g := r.gs[(start+i)%n]
+			if g != self && r.runnable(g) {
+				out = append(out, g)
+			}
 		}
 	}
 	return out
@@ -167,6 +189,18 @@ func (r *Run) park(g *Goroutine) {
 
 // yield is a visible operation: the scheduler may preempt g here.
 func (r *Run) yield(g *Goroutine, what string) {
+	if g != nil && len(r.hooks) > 0 && !r.inHook {
+		r.visibleOps++
+		for i := range r.hooks {
+			h := &r.hooks[i]
+			if !h.fired && h.at == r.visibleOps {
+				h.fired = true
+				r.inHook = true
+				r.callFunction(g, g.top, h.fn, nil)
+				r.inHook = false
+			}
+		}
+	}
 	if g == nil || len(r.gs) == 1 {
 		return
 	}
@@ -198,12 +232,7 @@ func (r *Run) block(g *Goroutine, why string) {
 			}
 			r.deadlock(g)
 		}
-		var next *Goroutine
-		if r.deterministic() || len(others) == 1 {
-			next = others[0]
-		} else {
-			next = others[r.Choose(len(others), "sched", "block:"+why)]
-		}
+		next := r.pickNext(others, "block:"+why)
 		r.switchTo(g, next)
 		if !g.blocked || (g.ready != nil && g.ready()) {
 			break
@@ -224,13 +253,23 @@ func (r *Run) exitGoroutine(g *Goroutine) {
 		r.deadlockFromExit(g)
 		return
 	}
-	var next *Goroutine
-	if r.deterministic() || len(others) == 1 {
-		next = others[0]
-	} else {
-		next = others[r.Choose(len(others), "sched", "exit")]
-	}
+	next := r.pickNext(others, "exit")
 	r.switchTo(nil, next)
+}
+
+// pickNext chooses who runs when the current goroutine cannot continue. The
+// default is the first runnable goroutine in round-robin order; deviating from
+// it costs one unit of the delay/preemption budget (delay-bounded scheduling).
+func (r *Run) pickNext(others []*Goroutine, what string) *Goroutine {
+	lim := r.W.Lim.Preemptions
+	if lim < 0 || len(others) == 1 || r.preempt >= lim {
+		return others[0]
+	}
+	c := r.Choose(len(others), "sched", what)
+	if c != 0 {
+		r.preempt++
+	}
+	return others[c]
 }
 
 func (r *Run) describeBlocked() string {
